@@ -30,7 +30,13 @@ RULE = ("Hypothesis-drawn retardances and orientation angles in [-50, 50] rad (p
         "shift=(sx, sy), a non-symmetric tf= array and Q=1 through the adapter.  Every array (and shape list) handed over is compared "
         "with a copy taken before the call (bucket ...:argument-modified); results are kept and re-checked after later calls with other "
         "parameters (...:result-overwritten) and constructors are called again after their previous result was edited in place "
-        "(...:aliased-state).")
+        "(...:aliased-state).  Round-7 hardening, clause large_batches: leading shapes with just more than 2**15 / 2**16 / 2**17 / 3 * 2**15 (thorough: to 2**18) matrices, "
+        "never a multiple of 2**15 (300x300, 130x520, 1x65537, 257x257, 2x3x10923, 1-D, thin 2-D / 3-D; C and Fortran order; complex128 / "
+        "complex64 / float64; random, unitary in closed form, whole-batch structure): jones_to_mueller on EVERY element against tr(s_i J s_j "
+        "J^H)/2 (vectorised harness arithmetic, one handedness for the whole batch), M(J1 J2) = M(J1) M(J2) and M M^T = I, M00 = 1 (unitary) on "
+        "every element, broadcast_kron against the Kronecker product of every pair, pauli_coefficients against tr(sigma_k J)/2 and the "
+        "reconstruction on every element, vector_vortex_retarder on an angle map of that size (unitary everywhere, then its Mueller matrices); "
+        "a sample (both ends, both sides of every multiple of 2**15, a strided sweep) against the single-matrix call.")
 ASSUMPTIONS = ["numpy linear algebra (matmul, QR, kron, trace) is correct",
                "the rotation matrix convention is [[cos, sin], [-sin, cos]] (pinned by the repository's own test at 45 deg)",
                "either handedness convention (sign of S3) is accepted for the Jones-to-Mueller map",
@@ -908,6 +914,203 @@ def _check_global(case, ctx, pol, P, orig, Violation):
         _unchanged(ctx, E, Ekeep, 'add_jones_propagation', 'the polarised field')
 
 
+# ---- batches that cross internal block / threshold sizes ---------------------------------------------
+BIG_BASES = {'quick': [2 ** 16, 2 ** 16, 2 ** 16, 2 ** 15, 2 ** 17, 3 * 2 ** 15], 'thorough': [2 ** 16, 2 ** 16, 2 ** 15, 2 ** 17, 3 * 2 ** 15, 3 * 2 ** 16, 2 ** 18]}
+BIG_FIXED = [[300, 300], [130, 520], [1, 65537], [65537], [257, 257], [2, 3, 10923], [182, 181]]
+
+
+def strat_large(tier):
+    """leading shapes with just more than 2**15 / 2**16 / 2**17 ... matrices, never a multiple of 2**15 (thin, square-ish, 1-D, 3-D)"""
+    shape = st.one_of(st.sampled_from(BIG_FIXED), st.fixed_dictionaries({
+        'base': st.sampled_from(BIG_BASES[tier]), 'extra': st.one_of(st.integers(1, 40), st.integers(1, 4000)),
+        'rows': st.sampled_from([0, 0, 1, 2, 3, 7, 130, 255]), 'orient': st.sampled_from(['rc', 'cr', 'r1c'])}))
+    return st.fixed_dictionaries({'shape': shape, 'what': st.sampled_from(['mueller', 'mueller', 'mueller', 'pauli', 'vortex']), 'seed': U.seeds,
+                                  'kind': st.sampled_from(['random', 'unitary', 'unitary', 'structured']), 'jdtype': st.sampled_from(['complex128', 'complex128', 'complex64', 'float64']),
+                                  'layout': st.sampled_from(['C', 'C', 'F']), 'charge': st.sampled_from([1, 2, -2, 3, 0.5, 6]), 'ret': st.sampled_from([2.1, math.pi, 0.4, -1.3]),
+                                  'rotate': st.sampled_from([0.3, 0.0, -1.1])})
+
+
+def _big_shape(spec):
+    if isinstance(spec, list):
+        return tuple(spec)
+    total, rows = spec['base'] + spec['extra'], spec['rows']
+    if rows == 0:
+        return (total,)
+    cols = total // rows + 1
+    return {'rc': (rows, cols), 'cr': (cols, rows), 'r1c': (rows, 1, cols)}[spec['orient']]
+
+
+def _unitary_fast(seed, B, salt):
+    """unitary 2x2 matrices in closed form (vectorised): e^{i phi} [[a, b], [-b*, a*]], |a|^2 + |b|^2 = 1"""
+    r = U.rng_of(seed, salt)
+    al, be, ga, ph = (r.uniform(0, TWO_PI, B) for _ in range(4))
+    mix = r.uniform(0, math.pi / 2, B)
+    a, b = np.cos(mix) * np.exp(1j * al), np.sin(mix) * np.exp(1j * be)
+    J = np.empty(B + (2, 2), complex)
+    J[..., 0, 0], J[..., 0, 1], J[..., 1, 0], J[..., 1, 1] = a, b, -np.conj(b), np.conj(a)
+    return J * np.exp(1j * ph)[..., None, None]
+
+
+def _mueller_ref_all(W, hand):
+    """tr(s_i J s_j J^H) / 2 for every matrix of the batch (harness arithmetic, vectorised)"""
+    Wh = dag(W)
+    s = [SIG[0], SIG[1], SIG[2], hand * SIG[3]]
+    left = [si @ W for si in s]
+    right = [sj @ Wh for sj in s]
+    M = np.empty(W.shape[:-2] + (4, 4))
+    for i in range(4):
+        for j in range(4):
+            M[..., i, j] = 0.5 * np.einsum('...ab,...ba->...', left[i], right[j]).real
+    return M
+
+
+def _sample_indices(N, seed, n=16):
+    pick = {0, 1, N - 2, N - 1}
+    for b in range(2 ** 15, N, 2 ** 15):
+        pick |= {b - 1, b, b + 1}
+    step = max(1, N // n)
+    pick |= set(range(seed % step, N, step))
+    return sorted(k for k in pick if 0 <= k < N)
+
+
+def _first_bad(bad, B):
+    k = int(np.flatnonzero(bad.reshape(-1))[0])
+    return k, tuple(int(v) for v in np.unravel_index(k, B))
+
+
+def check_large(case, ctx):
+    """batches of more than 2**15 / 2**16 / 2**17 matrices: every element against the vectorised definition, a sample against the
+    element-by-element call, and the algebra (multiplicative, unitary -> orthogonal with M00 = 1, Pauli reconstruction) on every element."""
+    with U.precision(64):
+        _check_large(case, ctx)
+
+
+def _check_large(case, ctx):
+    from prysm.x import polarization as pol
+    B = _big_shape(case['shape'])
+    N = int(np.prod(B))
+    seed, what, kind = case['seed'], case['what'], case['kind']
+    jdt = np.dtype(case['jdtype'])
+    if kind == 'unitary' and jdt.kind != 'c':
+        jdt = np.dtype('complex128')
+    low = jdt == np.complex64
+    rt = F32TOL if low else 1e-12
+    lay = case['layout']
+    ctx.nt(N % 2 ** 15 != 0)
+    ctx.label('what:' + what, 'matrices:%d*2^15+' % (N // 2 ** 15), 'ndim=%d' % len(B), 'layout:' + lay)
+    pick = _sample_indices(N, seed)
+    ctx.tally('elements-compared-with-the-single-call', len(pick))
+
+    def batch(salt):
+        J = _unitary_fast(seed, B, salt) if kind == 'unitary' else cplx(seed, B + (2, 2), salt)
+        if kind == 'structured':
+            J = _structure(J, STRUCTURES[(seed + salt) % len(STRUCTURES)])
+        if jdt.kind != 'c':
+            J = J.real.copy()
+        return U.relayout(J.astype(jdt), lay)
+
+    if what == 'vortex':
+        q, ret, rho = case['charge'], case['ret'], case['rotate']
+        theta = U.relayout(U.rng_of(seed, 5).uniform(-math.pi, math.pi, B), lay)
+        keep = theta.copy()
+        desc = 'vector_vortex_retarder(%r, theta%s, retardance=%r, rotate=%r)' % (q, list(B), ret, rho)
+        V = np.asarray(ctx.call(pol.vector_vortex_retarder, q, theta, retardance=ret, rotate=rho))
+        U.check_shape(V, B + (2, 2), 'large:vector_vortex_retarder', desc)
+        ctx.require(np.array_equal(theta, keep), 'vector_vortex_retarder:theta-mutated', desc + ' modified theta in place')
+        e = V @ dag(V)
+        bad = ~(np.abs(e - I2).max(axis=(-2, -1)) <= 1e-12)
+        if bad.any():
+            k, idx = _first_bad(bad, B)
+            ctx.fail('large:vector_vortex_retarder:unitary', '%s: %d of %d elements are not unitary, first at %s (flat %d): J J^H = %r' % (desc, int(bad.sum()), N, idx, k, e.reshape(N, 2, 2)[k].tolist()))
+        Vf = V.reshape(N, 2, 2)
+        tf_ = keep.reshape(N)
+        for k in pick:
+            one = np.asarray(ctx.call(pol.vector_vortex_retarder, q, np.array(tf_[k]), retardance=ret, rotate=rho))
+            U.check_close(Vf[k], one, 1e-13, 'large:vector_vortex_retarder:batch-vs-element', '%s flat element %d' % (desc, k), atol=1e-14)
+        J1, kind, jdt, low, rt = V, 'unitary', np.dtype('complex128'), False, 1e-12
+        ctx.label('vortex-then-mueller')
+        # ... and its Mueller matrices, below
+        J2 = None
+    elif what == 'pauli':
+        J = batch(40)
+        keep = J.copy()
+        W = J.astype(np.complex128)
+        c = ctx.call(pol.pauli_coefficients, J)
+        _unchanged(ctx, J, keep, 'pauli_coefficients', 'the Jones batch')
+        ctx.require(len(c) == 4, 'pauli_coefficients:len', 'expected 4 coefficients, got %d' % len(c))
+        rec = np.zeros(B + (2, 2), complex)
+        for k in range(4):
+            ck = np.asarray(c[k])
+            U.check_shape(ck, B, 'large:pauli_coefficients', 'c%d' % k)
+            ck = ck.astype(np.complex128)
+            want = 0.5 * np.einsum('ab,...ba->...', SIG[k], W)
+            U.check_close(ck, want, rt, 'large:pauli_coefficients:c%d' % k, 'c%d vs tr(sigma_%d J)/2, batch %s (%d matrices) dtype %s' % (k, k, B, N, jdt), atol=rt * 0.1)
+            rec = rec + ck[..., None, None] * SIG[k]
+        U.check_close(rec, W, rt, 'large:pauli:reconstruct', 'sum c_k sigma_k vs J, batch %s (%d matrices) dtype %s' % (B, N, jdt), atol=rt * 0.1)
+        return
+    else:
+        J1, J2 = batch(10), batch(20)
+    # Jones -> Mueller on the whole batch
+    k1 = J1.copy()
+    W1 = J1.astype(np.complex128)
+    ctx.label('kind:' + kind, 'jdtype:%s' % jdt)
+    desc = 'batch %s (%d Jones matrices, %s, %s, layout %s)' % (B, N, kind, jdt, lay)
+    M1_raw = ctx.call(pol.jones_to_mueller, J1)
+    M1 = np.array(M1_raw, copy=True)
+    _unchanged(ctx, J1, k1, 'jones_to_mueller', 'the Jones batch J1')
+    U.check_shape(M1, B + (4, 4), 'large:jones_to_mueller', desc)
+    ctx.require(M1.dtype.kind == 'f', 'jones_to_mueller:dtype', 'Mueller matrix dtype %s is not real' % M1.dtype)
+    M1 = M1.astype(np.float64)
+    fin = np.isfinite(M1).all(axis=(-2, -1))
+    if not fin.all():
+        k, idx = _first_bad(~fin, B)
+        ctx.fail('large:jones_to_mueller:nonfinite', '%s: %d of %d Mueller matrices have non-finite entries, first at %s (flat index %d)' % (desc, int((~fin).sum()), N, idx, k))
+    # definition, every element, in one of the two handedness conventions for the whole batch
+    errs = []
+    for hand in (1, -1):
+        ref = _mueller_ref_all(W1, hand)
+        errs.append((np.abs(M1 - ref).max(axis=(-2, -1)), ref))
+    S1 = float(np.max(np.abs(W1))) ** 2
+    nbad = [int((e > rt * max(S1, 1e-300)).sum()) for e, _ in errs]
+    h = 0 if nbad[0] <= nbad[1] else 1
+    if nbad[h]:
+        bad = errs[h][0] > rt * S1
+        k, idx = _first_bad(bad, B)
+        ctx.fail('large:jones_to_mueller:definition', '%s: %d of %d Mueller matrices differ from tr(s_i J s_j J^H)/2, first at %s (flat index %d): got row 0 %r, want %r' % (
+            desc, nbad[h], N, idx, k, M1.reshape(N, 4, 4)[k, 0].tolist(), errs[h][1].reshape(N, 4, 4)[k, 0].tolist()))
+    # the batch equals the element-by-element conversion (sample: both ends, both sides of every multiple of 2**15, a strided sweep)
+    Jf, Mf = J1.reshape(N, 2, 2), M1.reshape(N, 4, 4)
+    for k in pick:
+        one = np.asarray(ctx.call(pol.jones_to_mueller, Jf[k])).astype(np.float64)
+        U.check_close(Mf[k], one, rt * 0.1, 'large:jones_to_mueller:batch-vs-element', 'flat element %d of %s' % (k, desc), atol=rt * 0.1 * S1)
+    if kind == 'unitary':
+        e = M1 @ np.swapaxes(M1, -1, -2)
+        tol = _tol(1e-11, 32 if low else 64)
+        bad = ~((np.abs(e - I4).max(axis=(-2, -1)) <= tol) & (np.abs(M1[..., 0, 0] - 1) <= tol))
+        if bad.any():
+            k, idx = _first_bad(bad, B)
+            ctx.fail('large:jones_to_mueller:orthogonal', '%s: %d of %d Mueller matrices of unitary Jones matrices are not orthogonal with M00 = 1, first at %s (flat %d): M00 = %r' % (
+                desc, int(bad.sum()), N, idx, k, float(Mf[k, 0, 0])))
+    if J2 is not None:
+        W2 = J2.astype(np.complex128)
+        M2 = np.asarray(ctx.call(pol.jones_to_mueller, J2)).astype(np.float64)
+        M12 = np.asarray(ctx.call(pol.jones_to_mueller, W1 @ W2)).astype(np.float64)
+        U.check_shape(M2, B + (4, 4), 'large:jones_to_mueller', desc)
+        U.check_shape(M12, B + (4, 4), 'large:jones_to_mueller', desc)
+        S12 = S1 * float(np.max(np.abs(W2))) ** 2
+        err = np.abs(M12 - M1 @ M2).max(axis=(-2, -1))
+        bad = ~(err <= 4 * rt * S12)
+        if bad.any():
+            k, idx = _first_bad(bad, B)
+            ctx.fail('large:jones_to_mueller:multiplicative', '%s: M(J1 J2) != M(J1) M(J2) at %d of %d elements, first at %s (flat %d), err %.3g' % (desc, int(bad.sum()), N, idx, k, float(err.reshape(N)[k])))
+        # broadcast_kron, every element
+        K = np.asarray(ctx.call(pol.broadcast_kron, J1, J2))
+        U.check_shape(K, B + (4, 4), 'large:broadcast_kron', desc)
+        want = np.einsum('...ab,...cd->...acbd', W1, W2).reshape(B + (4, 4))
+        U.check_close(K, want, rt * 0.1, 'large:broadcast_kron', 'vs the Kronecker product of every pair, %s' % desc, atol=rt * 0.1)
+    U.check_equal(np.asarray(M1_raw).astype(np.float64), M1, 'jones_to_mueller:result-overwritten', 'M(J1) changed during later conversions')
+
+
 CLAUSES = [
     HypClause('retarders', strat_retarder, check_retarder, examples={'quick': 500, 'thorough': 3000}, shards={'quick': 2, 'thorough': 8}),
     HypClause('vortex', strat_vortex, check_vortex, examples={'quick': 400, 'thorough': 2500}, shards={'quick': 2, 'thorough': 8}),
@@ -916,4 +1119,5 @@ CLAUSES = [
     HypClause('pauli', strat_pauli, check_pauli, examples={'quick': 400, 'thorough': 2000}, shards={'quick': 1, 'thorough': 4}),
     HypClause('propagation', strat_prop, check_prop, examples={'quick': 250, 'thorough': 1500}, shards={'quick': 2, 'thorough': 8}),
     HypClause('add_jones_propagation', strat_global, check_global, examples={'quick': 150, 'thorough': 1000}, shards={'quick': 1, 'thorough': 4}),
+    HypClause('large_batches', strat_large, check_large, examples={'quick': 10, 'thorough': 60}, shards={'quick': 4, 'thorough': 10}),
 ]
